@@ -229,10 +229,12 @@ func c12Check(ctx *vfCtx, c c12Case) {
 	now0 := time.Now().UnixMilli()
 	db := &c12DBStub{content: map[c12PK]c12PR{}, all: c.DBReturnsAll}
 	seenTag := map[string]bool{}
-	tag := func(s string) {
-		if s != "" && !seenTag[s] {
-			seenTag[s] = true
-			ctx.Class(s)
+	tag := func(full string) {
+		for _, s := range c12TagClasses("", full) {
+			if !seenTag[s] {
+				seenTag[s] = true
+				ctx.Class(s)
+			}
 		}
 	}
 	for _, k := range c.DB {
@@ -795,6 +797,7 @@ func c12GenMessage(t *rapid.T, w c12World, server string) ([]byte, string, []str
 	content := jgenObject(t, jgenOpts{IntsOnly: true, MaxDepth: 2, MaxWidth: 3}, 0, "content")
 	content = content.without("signatures", "unsigned")
 	kind := rapid.SampledFrom([]string{"signed", "signed", "signed", "signed", "signed", "signed", "signed", "signed", "signed", "signed", "signed", "signed",
+		"signed", "signed", "signed", "signed", "signed", "signed", "signed", "signed", "signed", "signed", "signed", "signed",
 		"unsigned", "other-signer-only", "truncated", "array", "string", "signatures-number", "signer-number", "signature-number", "signatures-null"}).Draw(t, "msgKind")
 	canon := []byte(jcanon(content))
 	sigFor := func(idx int) jv { return jstr(c12B64Enc(c12SignWith(idx, canon))) }
